@@ -229,7 +229,7 @@ def no_final_newline_universe(ctx, exe, sc, pairs, env, thorough):
         if b"\x00" in data or not data.endswith(b"\n"):
             return None
         cut = data[:-2] if data.endswith(b"\r\n") else data[:-1]
-        if cut.endswith(b"\\") or not cut.strip():
+        if cut.rstrip(b" \t").endswith(b"\\") or not cut.strip():
             return None            # a line continuation at the end of the file is not a complete file
         args = ["-l", lang] if lang else []
         try:
